@@ -218,7 +218,7 @@ func main() {
 		tier = os.Args[1]
 	}
 	R = mon.Start("C20", tier)
-	R.Rule = "registry = every exported type of tlb/wallet/abi (generated from the sources) plus boc.Cell, boc.BitString, tlb.Magic, ton.Bits256, ton.AccountID, tl.Int256, abi.InMsgBody, abi.ExtOutMsgBody for which both json.Marshaler and json.Unmarshaler are implemented (decided by reflection at run time); values from the C03 domain rules (integer boundaries first, every constructor, then random), bare and wrapped in a struct field and a slice; each document must be valid JSON and parse back to a semantically equal value; truncations, type confusions and random edits of each document must not panic (through json.Unmarshal and through the method called directly); additional directed classes: magic tags with a value (compared as numbers), bit strings of every length 0..1023, every length 0..511 of external/variable addresses, the unknown-body arm of InMsgBody/ExtOutMsgBody/JettonPayload/NFTPayload and every known body type once, exotic cells (library, pruned under a Merkle proof, Merkle update) as Cell/Any/Maybe[Ref[Cell]] compared structurally with the reference tree, addresses with an anycast part and every cut of their text; documents that are no value's JSON form (numbers beyond the width, hex of another length, two-root bags, non-numeric anycast) must be refused or, if accepted, be written back unchanged; non-trivial = a value whose JSON was parsed back and compared; distinct = distinct (type, form, case)"
+	R.Rule = "registry = every exported type of tlb/wallet/abi (generated from the sources) plus boc.Cell, boc.BitString, tlb.Magic, ton.Bits256, ton.AccountID, tl.Int256, abi.InMsgBody, abi.ExtOutMsgBody for which both json.Marshaler and json.Unmarshaler are implemented (decided by reflection at run time); values from the C03 domain rules (integer boundaries first, every constructor, then random), bare and wrapped in a struct field and a slice; each document must be valid JSON and parse back to a semantically equal value; truncations, type confusions and random edits of each document must not panic (through json.Unmarshal and through the method called directly); additional directed classes: magic tags with a value (compared as numbers), bit strings of every length 0..1023, every length 0..511 of external/variable addresses, the unknown-body arm of InMsgBody/ExtOutMsgBody/JettonPayload/NFTPayload and every known body type once, exotic cells (library, pruned under a Merkle proof, Merkle update) as Cell/Any/Maybe[Ref[Cell]] compared structurally with the reference tree, addresses with an anycast part and every cut of their text; one shared bit string / external / variable address marshalled by 8 goroutines at once (fresh value each round): every text must parse back to the value; documents that are no value's JSON form (numbers beyond the width, hex of another length, two-root bags, non-numeric anycast) must be refused or, if accepted, be written back unchanged; non-trivial = a value whose JSON was parsed back and compared; distinct = distinct (type, form, case)"
 	R.Assume("a variable-length address with 256 bits and an int8 workchain (text identical to a standard address) is skipped, as the statement says")
 	R.Assume("semantic equality as in C03 (harness/reg/eq.go); magic tags, swept bit strings and exotic cells are additionally compared by value / bit by bit / with the reference tree")
 	R.Assume("a document that denotes no value of the type but is accepted and written back as the same document (big-integer types keep any number) is counted, not flagged")
